@@ -252,6 +252,7 @@ type c05trace struct {
 }
 
 func c05run(every int, ops []c05op, start string) (t c05trace) {
+	noteCase("C05", fmt.Sprint(start, " ", ops))
 	defer func() {
 		if r := recover(); r != nil {
 			t.bad = fmt.Sprintf("panic: %v", r)
